@@ -307,6 +307,14 @@ class World:
                 else: raise ValueError(k)
                 fn = dec(fn)
             self.funcs[f['name']] = fn
+        for name, impls in sc.get('dispatch', []):
+            ns = {}
+            exec(f'def {name}(*args, **kwargs):\n    pass\n', ns)
+            d = deal.dispatch(ns[name])
+            for i in impls:
+                d.register(self.funcs[i])
+            self.funcs[name] = d
+            self.kinds[name] = 'sync'
 
     # ----- observations -----
     def rel(self, x):
@@ -316,7 +324,10 @@ class World:
     def show_exn(self, e):
         tag = str(self.reg[id(e)]) if id(e) in self.reg and e.args == (self.reg[id(e)],) else '-'
         out = f'X {type(e).__name__} tag={tag}'
-        if isinstance(e, deal.ContractError):
+        if isinstance(e, deal.NoMatchError):
+            names = tuple(getattr(x.origin, '__name__', None) for x in e.exceptions)
+            out += ' args=[' + show(names) + ']'
+        elif isinstance(e, deal.ContractError):
             o = e.origin
             out += f' msg=<{e.message}> params={show_dict(e.params)} origin={getattr(o, "__name__", "-") if o is not None else "-"}'
         else:
